@@ -53,9 +53,13 @@ def convert_to_bool_expression(qlassf: QlassF, form: str):
 
 
 def convert_to_dimacs(expr):
-    clauses = to_cnf(expr, simplify=True).args
-    if len(clauses) == 1 and isinstance(clauses[0], sympy.Symbol):
-        clauses = [clauses]
+    cnf = to_cnf(expr, simplify=True)
+    if isinstance(cnf, sympy.And):
+        clauses = cnf.args
+    elif cnf == sympy.true:
+        clauses = []
+    else:  # a single clause (or False, the empty clause)
+        clauses = [cnf]
 
     var_dict = {symbol: i + 1 for i, symbol in enumerate(expr.free_symbols)}
     dimacs_clauses = []
@@ -63,6 +67,8 @@ def convert_to_dimacs(expr):
     for clause in clauses:
         if isinstance(clause, sympy.Or):
             clause_literals = clause.args
+        elif clause == sympy.false:
+            clause_literals = []
         else:
             clause_literals = [clause]
 
